@@ -23,8 +23,8 @@ PROP = "C18"
 
 DS = [DatasetId("t", "a"), DatasetId("t", "b")]
 # report kinds of one job: three progress reports with increasing timestamps, two results, the shutdown notice
-REPORTS = ["P1", "P2", "P3", "Ra", "Rb", "Rab", "S"]
-TS = {"P1": 10, "P2": 20, "P3": 30, "Ra": 25, "Rb": 35, "Rab": 35, "S": 40}
+REPORTS = ["P1", "P2", "P3", "Ra", "Rb", "Rab", "P2Ra", "S"]
+TS = {"P1": 10, "P2": 20, "P3": 30, "Ra": 25, "Rb": 35, "Rab": 35, "P2Ra": 20, "S": 40}
 REMAINING = {"P1": 2, "P2": 1, "P3": 0}  # of total 3
 
 
@@ -86,7 +86,16 @@ class World:
         rep = report.Reporter(f"{addr},{job_id}")
         self.clock[0] = TS[kind]
         ref = self.ref[j]
-        if kind.startswith("P"):
+        if kind == "P2Ra":  # one report carrying a progress value and a result
+            ds = DS[0]
+            val = b"\xfb\xff\xbe\x00" + f"{j}:{ds!r}".encode()
+            rep.socket.send(report.serialize(report.ControllerReport(job_id, "{:.2%}".format(1.0 - REMAINING["P2"] / 3)[:-1], TS[kind], [(ds, val)])))
+            if ref["registered"]:
+                ref["results"][ds] = val
+                if ref["max_ts"] is None or TS[kind] > ref["max_ts"]:
+                    ref["max_ts"] = TS[kind]
+                    ref["progress"] = "{:.2%}".format(1.0 - REMAINING["P2"] / 3)[:-1]
+        elif kind.startswith("P"):
             st = types.SimpleNamespace(remaining=REMAINING[kind], total=3)
             rep.send_progress(st)
             if ref["registered"] and (ref["max_ts"] is None or TS[kind] > ref["max_ts"]):
@@ -217,7 +226,7 @@ def expand(hist):
         try:
             nw, v = build(nh)
             v = v + nw.check_queries()
-            c = nw.canon()
+            c = None if v else nw.canon()  # a state in which a monitor fired is reported, not expanded
         except common.HarnessError:
             raise
         except Exception as e:
